@@ -13,7 +13,7 @@ RULE = ('multipart uploads (path / seekable / non-seekable sources) and multipar
         'after that event\'s effect, incl. while CreateMultipartUpload / parts / complete are in flight); per upload id whose '
         'create response reached the library the fake\'s begin/end log is checked: exactly one of {completed once & never '
         'aborted, failed & abort issued before the future is done}, no request after the abort, abort only after every other '
-        'request returned; non-trivial = a delivered upload id existed and a fault/cancel was actually injected (or the run is '
+        'request returned; bases with SSE-C / RequestPayer / ExpectedBucketOwner / checksum arguments; an abort counts only once it has left the client; a delivered successful complete must give a successful future and no abort; non-trivial = a delivered upload id existed and a fault/cancel was actually injected (or the run is '
         'the fault-free baseline); distinct = (shape incl. fault/cancel site, interleaving signature)')
 ASSUMPTIONS = [
     'crash points are process-internal faults; a killed process is out of scope (the library has no recovery path)',
